@@ -721,8 +721,31 @@ def reparse_rule(ctx, facts, cfg):
         if not installs:
             ctx.violation(rid, key, 'parsed-bytes-not-installed', '%s refreshes the offsets from a parse result but does not store that result\'s bytes '
                           '(into_packet()) into `packet`: offsets and bytes can disagree' % key, site=f['at'], config=cfg)
-        ok = not crossed and not missing and not miss_sum and installs
-        ctx.instance(rid, '%s refreshes %s from a fresh parse' % (key, sorted(copies)), ok=ok, site=f['at'])
+        # path-sensitive part: no successful path installs new packet bytes without refreshing all five offsets on that same path
+        class _RefreshAu(Automaton):
+            init = (False, frozenset())
+
+            def on_stmt(self_, q, f_, bi_, s_, env_):
+                if f_['key'] != key or s_['k'] != 'assign':
+                    return q
+                rep, got = q
+                lf_ = F.last_field(s_['place'])
+                if lf_ == (PP, 'packet'):
+                    e_ = F.expr_rv(f_, F.single_defs(f_), s_['rv'])
+                    if e_[0] == 'agg' and e_[1] == 'std::option::Option' and e_[2] == 'Some':
+                        return (True, got)
+                if lf_ and lf_[0] == PP and lf_[1] in ALL_OFFS:
+                    return (rep, got | {lf_[1]})
+                return q
+        rflow = PathFlow(facts, _RefreshAu())
+        rexits = rflow.summary(key, _RefreshAu.init)
+        stale = [(q, kind) for (q, kind) in rexits if kind == 'Ok' and q[0] and len(q[1]) < len(ALL_OFFS)]
+        if stale:
+            q0, k0 = stale[0]
+            ctx.violation(rid, key, 'bytes-installed-without-offsets', '%s can return successfully after installing new packet bytes without refreshing %s on that path: the recorded section / EDNS positions '
+                          'describe the old bytes' % (key.split('::')[-1], sorted(set(ALL_OFFS) - set(q0[1]))), site=f['at'], path=rflow.describe_path(key, rflow.witness(key, _RefreshAu.init, q0, k0)), config=cfg)
+        ok = not crossed and not missing and not miss_sum and installs and not stale
+        ctx.instance(rid, '%s refreshes %s from a fresh parse on every successful path that installs new bytes' % (key, sorted(copies)), ok=ok, site=f['at'])
         for k, v in crossed.items():
             ctx.violation(rid, key, 'crossed-' + k, '%s is refreshed from the parse result\'s %s' % (k, v[0]), site=v[1], config=cfg)
         for m in missing:
